@@ -216,12 +216,26 @@ func runOp(kind int, r *core.Rng, s *slot, sh *sharedIn) (digest string, rnd []b
 		}
 		return "ok", x.Bytes()
 	case kNewSA:
-		k := newInfoKey(r.Intn(3), r.Intn(3), r.Intn(3), 0)
+		e, i, p := r.Intn(3), r.Intn(3), r.Intn(3)
+		k := newInfoKey(e, i, p, 0)
 		pr, _ := k.ToProposal()
-		peerPub := k.DhInfo.GetPublicValue(big.NewInt(int64(r.U32())))
-		sa, pub, err := security.NewIKESAKey(pr, peerPub, r.Bytes(32), r.U64(), r.U64())
+		peerExp := big.NewInt(int64(r.U32()) + 2)
+		peerPub := k.DhInfo.GetPublicValue(peerExp)
+		nonces, spii, spir := r.Bytes(32), r.U64(), r.U64()
+		if r.Bool() {
+			// identifiers that legitimately repeat across set-ups in flight: a peer that starts over after
+			// INVALID_KE_PAYLOAD / COOKIE keeps its SPI, two peers behind one NAT can pick the same one, and the responder
+			// SPI is 0 in every first request
+			spii, spir = uint64(1+r.Intn(2)), 0
+		}
+		sa, pub, err := security.NewIKESAKey(pr, peerPub, nonces, spii, spir)
 		if err != nil || sa == nil || len(pub) != 128 || len(sa.SK_ei) != k.EncrInfo.GetKeyLength() {
 			return fmt.Sprint("CONTRACT NewIKESAKey: ", err), nil
+		}
+		// the SA is THIS call's: its keys are those of (this peer's exponent, the public value returned, these nonces / SPIs)
+		shared := ref.FixedLen(ref.ModExp(new(big.Int).SetBytes(pub), peerExp, ref.P1024), 128)
+		if bad := cmpKeys(sa, ref.DeriveIKE(p, ref.Suite{EncKeyLen: []int{16, 24, 32}[e], Integ: i}, nonces, shared, spii, spir)); bad != "" {
+			return "CONTRACT NewIKESAKey: the SA returned is not keyed from this call's arguments and the returned public value: " + bad, nil
 		}
 		return "ok", pub
 	case kRefused:
